@@ -40,7 +40,22 @@ def coverage(tr, nframes, cov):
                 cov['ClassChange'] += 1
 
 
-def sweep(regions, n=60, seed0=100000, frames=150, size='quick', verbose=True, stop_first=False):
+def split_run(cfg, seed):
+    """the same configuration run as 2-4 successive simulate_until_* calls (wrap_up_servers at every pause is compared too)"""
+    import random
+    rng = random.Random('k2b-split/%d' % seed)
+    if cfg['run'][0] != 'time':
+        return cfg
+    T = cfg['run'][1]
+    cuts = sorted(rng.sample(range(1, T), rng.randint(1, 3)))
+    runs = [['time', c] for c in cuts]
+    if rng.random() < 0.5:
+        runs.insert(rng.randrange(len(runs) + 1), ['cust', rng.choice([0, 1, 3, 8, 15]), rng.choice(['Complete', 'Finish', 'Arrive', 'Accept'])])
+    cfg['run'] = runs + [['time', T]]
+    return cfg
+
+
+def sweep(regions, n=60, seed0=100000, frames=150, size='quick', verbose=True, stop_first=False, split=False):
     drv = driver()
     out = {}
     first = None
@@ -52,6 +67,8 @@ def sweep(regions, n=60, seed0=100000, frames=150, size='quick', verbose=True, s
             if not engine_k2b.in_scope2(cfg):
                 tot['out_of_scope'] += 1
                 continue
+            if split:
+                cfg = split_run(cfg, seed)
             tr = netbuild.run_cfg(cfg, max_frames=cfg.get('max_frames'))
             if tr.init is None or getattr(tr, 'rejected', False):
                 tot['rejected'] += 1
@@ -90,9 +107,10 @@ if __name__ == '__main__':
     ap.add_argument('--size', default='quick')
     ap.add_argument('--quiet', action='store_true')
     ap.add_argument('--stop', action='store_true')
+    ap.add_argument('--split', action='store_true', help='run every configuration as several successive simulate_until_* calls')
     ap.add_argument('regions', nargs='*')
     a = ap.parse_args()
-    out, first = sweep(a.regions or DEFAULT, a.n, a.s, a.f, a.size, verbose=True, stop_first=a.stop)
+    out, first = sweep(a.regions or DEFAULT, a.n, a.s, a.f, a.size, verbose=True, stop_first=a.stop, split=a.split)
     tr = sum(v.get('runs', 0) for v in out.values())
     tf = sum(v.get('frames', 0) for v in out.values())
     tm = sum(v.get('mismatch', 0) for v in out.values())
